@@ -10,9 +10,9 @@
    nitime/utils.py
      107-177  ar_generator -> ar_gen_b, ar_gen_a, ar_generator (scipy.signal.lfilter is a parameter),
                               lfilter_ref (the direct-form recursion that is lfilter's contract)
-     988-1153 autocorr/crosscov: NOT modelled here — the autocorrelation sequence R is an input of the
-              model (its correctness is property C20); the harness obtains it by calling utils.autocorr
-              exactly as AR_est_* do.
+     988-1153 autocorr/crosscov: the FFT route is not modelled; its contract (biased lagged sums) is
+              autocorr_lag, against which the correspondence compares the sequence R that the harness
+              obtains by calling utils.autocorr exactly as AR_est_* do (the proof of the contract is C20).
 
    Library oracles: scipy.linalg.toeplitz (convention T[i,j] = c[i-j] for j <= i, conj(c[j-i]) above the
    diagonal — modelled by `toep` and validated per case), scipy.linalg.solve, scipy.signal.freqz
@@ -29,6 +29,14 @@ Definition cr (z : C) : C := (Qred (re z), Qred (im z)).
 Definition nthC (l : list C) (k : nat) : C := nth k l c0.
 (* complex / real *)
 Definition cdivq (z : C) (b : Q) : C := (re z / b, im z / b).
+
+(* ---------------------------------------------------------------- utils.autocorr (contract only) *)
+(* utils.autocorr(x)[k] (debias=False, normalize=True, zero lag first) = (1/N) sum_n x[n+k] conj(x[n]).
+   This is the contract of the FFT route (proved in property C20); here it is used by the
+   correspondence to tie the sequence R that AR_est_* obtain from utils.autocorr on every run. *)
+Definition autocorr_lag (x : list C) (k : nat) : C :=
+  cdivq (fold_left (fun acc p => cr (cadd acc (cmul (fst p) (cconj (snd p))))) (combine (skipn k x) x) c0)
+        (inject_Z (Z.of_nat (length x))).
 
 (* ---------------------------------------------------------------- AR_est_LD (lines 146-165) *)
 (* state: a = w[1:p] (the coefficients found so far), b, w_k *)
